@@ -327,6 +327,19 @@ def check_padding(profile, extra, scalar, return_ctx, single_item, p):
     except Exception as e:
         p.violation(f"C18:padding:exception:{type(e).__name__}{tag}", case, f"{case}: {e!r}")
         return
+    if return_ctx and not single_item:
+        # the same samples (with their contexts) through a padding collator that was NOT told about contexts: the context
+        # column is then collated by the padding collator itself - key by key, like default collation
+        try:
+            out2 = PadSequencesCollator(dataset_mode=mode, return_ctx=False)(samples)
+            ctx2 = out2[1] if isinstance(out2, (tuple, list)) and len(out2) == 2 and isinstance(out2[1], dict) else None
+            if ctx2 is not None and (set(ctx2) != {"pre", "offset"} or [float(v) for v in ctx2["pre"]] != [float(i) for i in range(B)]
+                                     or [int(v) for v in ctx2["offset"]] != [100 + i for i in range(B)]):
+                p.violation(f"C18:padding:context_column_not_collated_by_key{tag}", case, f"contexts collated to {ctx2}")
+                return
+        except Exception as e:
+            p.violation(f"C18:padding:exception:{type(e).__name__}{tag}|ctx_column", case, f"{case}: {e!r}")
+            return
     if return_ctx:
         if not (isinstance(out, tuple) and len(out) == 2 and isinstance(out[1], dict)):
             p.violation(f"C18:padding:ctx_not_returned{tag}", case, f"{type(out)}")
